@@ -269,7 +269,8 @@ def check(ctx, case, argv, mode, sp, schema_state, sval, insts, cls_opt, base_ur
                 continue
             mentioned = path in err or path in out
             # the default plain format does not name the file of a validation error (its chunks were checked above)
-            should = st in ("missing", "notjson") or (st == "invalid" and mode != "plain-default") or (mode == "pretty")
+            has_errors = any(p == path for p, _ in expected_chunks)
+            should = st in ("missing", "notjson") or (has_errors and mode != "plain-default") or (mode == "pretty")
             if should and not mentioned:
                 return bad("instance-not-processed", "%s (%s) left no trace" % (os.path.basename(path), st))
 
